@@ -182,7 +182,7 @@ def run(rep: vk.Report):
                         Mi = np.asarray(hf(x.astype(np.int64)), dtype=float)
                     except Exception:
                         Mi = None
-                if Mi is not None and np.all(np.isfinite(Mi)) and not np.allclose(Mi, M, rtol=1e-9, atol=1e-12):
+                if Mi is not None and np.all(np.isfinite(Mi)) and np.all(np.abs(M) < 1e9) and not np.allclose(Mi, M, rtol=1e-9, atol=1e-12):
                     rep.violation({"kind": "numeric", "obligation": "the compiled Hessian at a point does not depend on the array's integer / floating dtype",
                                    "witness": {"expr": repr(e)[:300], "V": names, "point": pt, "float_point": M.tolist(), "int64_point": Mi.tolist(),
                                                "path": hf.__name__}}, concrete=True)
